@@ -149,6 +149,11 @@ partial def outToJson : Out → Json
   | .failed f =>
     Json.mkObj [("err", .str f.err.name),
       ("chain", .arr (f.chain.map (fun c => Json.arr #[(match c.1 with | some n => .str n | none => .null), toJson c.2])).toArray)]
+  | .doc d =>
+    ok (Json.mkObj [
+      ("macros", .arr (d.macros.map (fun m => Json.arr #[.str m.1, valToJson m.2])).toArray),
+      ("sections", .arr (d.sections.map (fun s => Json.arr #[.str (joinScope s.scope ++ "|" ++ joinDot s.printed),
+          kvsToJson s.params])).toArray)])
   | .locs l =>
     let rows := l.map (fun x => (joinScope x.1.1 ++ "|" ++ joinDot x.1.2 ++ "." ++ x.2.1,
       (x.2.2.file.getD "bindings string") ++ ":" ++ toString x.2.2.line))
